@@ -592,6 +592,21 @@ func (w *World) Project() *State {
 	return s
 }
 
+// ShuffleOrdersSeeded picks a lister order for every group that depends only on the seed and the group (not on other groups).
+func (w *World) ShuffleOrdersSeeded(seed int64) {
+	for _, g := range w.Gorder {
+		h := int64(0)
+		for _, c := range g {
+			h = h*131 + int64(c)
+		}
+		r := rand.New(rand.NewSource(seed ^ h))
+		o := append([]string{}, w.Order[g]...)
+		sort.Strings(o)
+		r.Shuffle(len(o), func(i, j int) { o[i], o[j] = o[j], o[i] })
+		w.Order[g] = o
+	}
+}
+
 // ShuffleOrders picks a fresh random lister order for every group.
 func (w *World) ShuffleOrders() {
 	for _, g := range w.Gorder {
